@@ -48,6 +48,52 @@ def t_r12_and_cut_from():
     finally:
         shutil.rmtree(d)
 
+def t_imports():
+    # R14 / import fingerprint: parse `use` trees; a changed binding of a name used in lifted text is a LiftError unless mapped
+    b = lift.parse_imports('use a::b::{c, d as e, f::{self, g}};\n#[cfg(x)]\nuse h::*;\npub(crate) use i::j;\nfn k() { use l::m; }\nmod t { use n::o; }\n')
+    assert b == {'c': 'a::b::c', 'e': 'a::b::d', 'f': 'a::b::f', 'g': 'a::b::f::g', '*h::*': 'h::*', 'j': 'i::j'}, b
+    import tempfile, os, shutil, json
+    d = tempfile.mkdtemp(prefix='lift_selftest_')
+    try:
+        os.makedirs(os.path.join(d, 'repo', 'src')); os.makedirs(os.path.join(d, 'contracts', 'U'))
+        srcp = os.path.join(d, 'repo', 'src', 'a.rs')
+        open(srcp, 'w').write('use x::streaming::take;\nuse y::unused;\nfn f(n: usize) -> usize {\n    take(n)\n}\n')
+        tpl = os.path.join(d, 'contracts', 'U', 'unit.rs')
+        open(tpl, 'w').write('verus! {\n//@path x::streaming::take => take\n//@path x::complete::take => take_complete\n//@lift name=f file=src/a.rs fn=f\n//@ spec\n    ensures true,\n//@end\n}\n')
+        repo = os.path.join(d, 'repo')
+        gen, meta = lift.build_unit(tpl, repo, include_root=d)
+        assert meta['imports'] == {'recorded': False}, meta['imports']
+        lift.main([tpl, '--repo', repo, '--record-imports'])
+        gen, meta = lift.build_unit(tpl, repo, include_root=d)
+        assert meta['imports']['recorded'] and 'take(n)' in gen
+        # mapped change: followed
+        open(srcp, 'w').write('use x::complete::take;\nuse y::unused;\nfn f(n: usize) -> usize {\n    take(n)\n}\n')
+        gen, meta = lift.build_unit(tpl, repo, include_root=d)
+        assert 'take_complete(n)' in gen and meta['imports']['followed'], gen
+        # alias to a mapped path
+        open(srcp, 'w').write('use x::streaming::take;\nuse x::complete::take as tc;\nuse y::unused;\nfn f(n: usize) -> usize {\n    tc(n)\n}\n')
+        gen, meta = lift.build_unit(tpl, repo, include_root=d)
+        assert 'take_complete(n)' in gen, gen
+        # unmapped change of a used name: undecided
+        open(srcp, 'w').write('use z::other::take;\nuse y::unused;\nfn f(n: usize) -> usize {\n    take(n)\n}\n')
+        try:
+            lift.build_unit(tpl, repo, include_root=d)
+            assert False, 'expected LiftError'
+        except lift.LiftError as e:
+            assert 'import of `take` changed' in str(e), e
+        # change of an unused name: no effect
+        open(srcp, 'w').write('use x::streaming::take;\nuse w::unused;\nfn f(n: usize) -> usize {\n    take(n)\n}\n')
+        gen, meta = lift.build_unit(tpl, repo, include_root=d)
+        assert 'take(n)' in gen
+    finally:
+        shutil.rmtree(d)
+    # every Verus unit has its imports recorded
+    import json as _j
+    reg = _j.load(open(os.path.join(os.path.dirname(os.path.dirname(os.path.abspath(__file__))), 'contracts', 'registry.json')))
+    for u, v in reg['units'].items():
+        if v['engine'] == 'verus':
+            assert os.path.exists(os.path.join(os.path.dirname(os.path.dirname(os.path.abspath(__file__))), 'contracts', u, 'imports.json')), 'imports.json missing for ' + u
+
 def t_attribution():
     """every property named in a clause label must run the unit that holds the clause (labels of the shared include
     files are repeated in every unit and are exempt)"""
@@ -71,7 +117,7 @@ def t_attribution():
                     bad.append((p, u, lab))
     assert not bad, 'clause labels name properties whose check does not run the unit: %s' % bad[:5]
 
-t_mask(); t_rules(); t_r11(); t_r12_and_cut_from(); t_attribution()
+t_mask(); t_rules(); t_r11(); t_r12_and_cut_from(); t_imports(); t_attribution()
 for cmd in (['verus', '--version'], ['cargo', 'kani', '--version']):
     p = subprocess.run(cmd, stdout=subprocess.PIPE, stderr=subprocess.STDOUT, text=True, env=dict(os.environ, CARGO_NET_OFFLINE='true'))
     print(' '.join(cmd), '->', p.stdout.strip().splitlines()[0] if p.stdout.strip() else p.returncode)
